@@ -102,6 +102,9 @@ pub enum Prop {
     DisplayNone,
     /// height:0 / max-height:0 plus overflow:hidden in the same block
     ZeroHeightHidden(bool),
+    /// the same idiom with a further non-zero height / max-height after the zero one
+    /// (`max-height:0;height:20px;overflow:hidden` | `height:0;max-height:100px;overflow:hidden`)
+    ZeroHeightMixed(bool),
 }
 
 #[derive(Clone, Debug, Serialize, Deserialize, PartialEq, Eq, Hash)]
@@ -206,6 +209,13 @@ impl Decl {
             Prop::BgColor(c) => format!("{}:{}{}", name("background-color"), hex(*c), imp),
             Prop::DisplayNone => format!("{}:none{}", name("display"), imp),
             Prop::ZeroHeightHidden(max) => format!("{}:0{};{}:hidden{}", name(if *max { "max-height" } else { "height" }), imp, name("overflow"), imp),
+            Prop::ZeroHeightMixed(max) => {
+                if *max {
+                    format!("{}:0{};{}:20px;{}:hidden{}", name("max-height"), imp, name("height"), name("overflow"), imp)
+                } else {
+                    format!("{}:0{};{}:100px;{}:hidden{}", name("height"), imp, name("max-height"), name("overflow"), imp)
+                }
+            }
         }
     }
 }
@@ -252,7 +262,7 @@ pub fn sheet_to_css(sheet: &Sheet, v: &Variant) -> String {
             0 => "",
             1 => " ",
             2 => ["\n", "\n  ", " ", "\t"][n % 4],
-            _ => [" /* c */ ", "/**/", " /* a\nb */\n", " "][n % 4],
+            _ => [" /* c */ ", "/**/", " /* a\nb */\n", " ", "/***/", " /* note **/ ", "/****** banner ******/\n", "/* * / */", " /*/*/ "][n % 9],
         }
     };
     let mut s = String::new();
@@ -537,7 +547,7 @@ pub fn computed(dom: &Arena, n: usize, st: &Styling, use_doc_css: bool) -> Compu
     }
     let col = winner(cands.iter().filter(|c| matches!(c.prop, Prop::Color(_))));
     let bg = winner(cands.iter().filter(|c| matches!(c.prop, Prop::BgColor(_))));
-    let hidden = cands.iter().any(|c| matches!(c.prop, Prop::DisplayNone | Prop::ZeroHeightHidden(_)));
+    let hidden = cands.iter().any(|c| matches!(c.prop, Prop::DisplayNone | Prop::ZeroHeightHidden(_) | Prop::ZeroHeightMixed(_)));
     Computed {
         colour: col.and_then(|c| if let Prop::Color(x) = c.prop { Some(x) } else { None }),
         bg: bg.and_then(|c| if let Prop::BgColor(x) = c.prop { Some(x) } else { None }),
